@@ -170,6 +170,106 @@ func runC07(r *kit.Run) {
 		}
 		c07Hook(r, i, r.Rng("hook", i), i%2 == 1)
 	}
+	ne := int64(r.Scale(240, 12000))
+	for i := int64(0); i < ne && !r.Stopped(); i++ {
+		if !r.Mine(i) {
+			continue
+		}
+		c07Evict(r, i, r.Rng("evict", i))
+	}
+}
+
+// c07Evict: a full fixed-capacity deque takes force pushes (each evicts
+// from the other end) and is then consumed through a blocking call: the
+// deque is not empty, so the call returns at once with the item at that
+// end. A consumer parked on a non-empty deque is decided at quiescence.
+func c07Evict(r *kit.Run, idx int64, rng *rand.Rand) {
+	capN := []int{1, 1, 2, 3}[rng.IntN(4)]
+	d, err := pubsub.NewDeque[byte](pubsub.DequeOptions{Capacity: capN})
+	if err != nil {
+		r.Violation("C07/config/valid-options-rejected", idx, nil, err.Error(), nil)
+		return
+	}
+	var model []byte
+	var script []string
+	var id byte
+	for k := 0; k < capN; k++ {
+		id++
+		_ = d.PushBack(id)
+		model = append(model, id)
+	}
+	nf := 1 + rng.IntN(3)
+	for k := 0; k < nf; k++ {
+		id++
+		if rng.IntN(2) == 0 {
+			if e := d.ForcePushBack(id); e != nil {
+				r.Violation("C07/Deque.forcepush/refused", idx, map[string]any{"capacity": capN, "script": script}, fmt.Sprintf("ForcePushBack on an open deque returned %v", e), nil)
+				return
+			}
+			model = append(model[1:], id)
+			script = append(script, fmt.Sprintf("ForcePushBack(%d)", id))
+		} else {
+			if e := d.ForcePushFront(id); e != nil {
+				r.Violation("C07/Deque.forcepush/refused", idx, map[string]any{"capacity": capN, "script": script}, fmt.Sprintf("ForcePushFront on an open deque returned %v", e), nil)
+				return
+			}
+			model = append([]byte{id}, model[:len(model)-1]...)
+			script = append(script, fmt.Sprintf("ForcePushFront(%d)", id))
+		}
+	}
+	kind := []string{"waitfront", "waitback", "dist-receive", "iter-fwd"}[rng.IntN(4)]
+	want := model[0]
+	if kind == "waitback" {
+		want = model[len(model)-1]
+	}
+	procs := kit.ProcsFor(idx)
+	desc := map[string]any{"capacity": capN, "script": script, "consumer": kind, "expected_contents": model, "gomaxprocs": procs}
+	r.Eval()
+	r.Current(idx, fmt.Sprintf("C07 evict cap=%d %v then %s", capN, script, kind))
+	ctx, cancel := context.WithCancel(context.Background())
+	defer cancel()
+	var got byte
+	var gerr error
+	done := make(chan struct{})
+	kit.WithProcs(procs, func() {
+		go func() {
+			defer close(done)
+			switch kind {
+			case "waitfront":
+				got, gerr = d.WaitFront(ctx)
+			case "waitback":
+				got, gerr = d.WaitBack(ctx)
+			case "dist-receive":
+				got, gerr = d.Distributor().Receive(ctx)
+			case "iter-fwd":
+				got, gerr = d.ProducerBlocking()(ctx)
+			}
+		}()
+		met, q, cs := kit.Await(c07Watchdog/4, c07Watchdog, func() bool { return isClosed(done) })
+		switch {
+		case met:
+		case q:
+			r.Violation("C07/Deque."+kind+"/consumer-parked-with-items", idx, desc, fmt.Sprintf("the deque holds %d item(s) (Len()=%d) after the force pushes, the consumer is still parked at quiescence: %v", len(model), d.Len(), cs.Describe()), nil)
+			cancel()
+			<-done
+			got, gerr = want, nil
+		default:
+			r.Inconclusive("C07 evict: consumer not returned, not quiescent")
+			cancel()
+			<-done
+			got, gerr = want, nil
+		}
+	})
+	if gerr != nil {
+		r.Violation("C07/Deque."+kind+"/error-on-non-empty", idx, desc, fmt.Sprintf("returned %v on a deque holding %v", gerr, model), nil)
+		return
+	}
+	if got != want {
+		r.Violation("C07/Deque."+kind+"/wrong-item", idx, desc, fmt.Sprintf("returned %d, the item at that end is %d (contents %v)", got, want, model), nil)
+		return
+	}
+	r.Distinct(fmt.Sprintf("evict|cap=%d|n=%d|%s|p=%d", capN, nf, kind, procs))
+	r.Count("evict_scenarios", 1)
 }
 
 func c07Scenario(r *kit.Run, idx int64, rng *rand.Rand, deque bool) {
@@ -311,7 +411,29 @@ func c07Scenario(r *kit.Run, idx int64, rng *rand.Rand, deque bool) {
 		// stimulus
 		steps := 1 + rng.IntN(5)
 		for s := 0; s < steps && inconclusive == ""; s++ {
-			switch c := []int{0, 1, 2, 3, 4, 5, 5, 6, 7, 7, 8, 9, 9}[rng.IntN(13)]; c {
+			choices := []int{0, 1, 2, 3, 4, 5, 5, 6, 7, 7, 8, 9, 9}
+			if deque {
+				choices = append(choices, 10, 10)
+				if y.cfg.Kind == limHard && y.cfg.Hard <= 2 {
+					choices = append(choices, 10, 10, 10, 7) // evictions on the smallest deques
+				}
+			}
+			switch c := choices[rng.IntN(len(choices))]; c {
+			case 10: // force pushes: on a full deque they evict from the other end
+				k := 1 + rng.IntN(3)
+				front := rng.IntN(2) == 0
+				var res []string
+				for j := 0; j < k; j++ {
+					v := nextID()
+					var e error
+					if front {
+						e = y.d.ForcePushFront(v)
+					} else {
+						e = y.d.ForcePushBack(v)
+					}
+					res = append(res, errClass(e))
+				}
+				script = append(script, fmt.Sprintf("forcepush x%d front=%v -> %v", k, front, res))
 			case 9: // one push (may spend burst credit and raise the quota), then one pop
 				front := deque && rng.IntN(2) == 0
 				pr := push(front)
